@@ -46,18 +46,18 @@ theorem popDone_flatG : ∀ (ctx : List Frame) (ms : List Macro) (d : Nat),
 inductive StepSpecG (st : St) : CtxStep → Prop where
   | none (s : St) (h1 : s.rb = false) (h2 : s.ctx = []) (h3 : flatG g st.macros st.ctx = []) (h4 : s.raw = st.raw)
       (h5 : s.macros = (popDone st.ctx st.macros st.depth).2.1 ∧ s.depth = (popDone st.ctx st.macros st.depth).2.2 ∧
-        liveNames s.ctx = liveNames (popDone st.ctx st.macros st.depth).1 ∧ s.ppnl = st.ppnl) :
+        liveNames s.ctx = liveNames (popDone st.ctx st.macros st.depth).1 ∧ s.ppnl = st.ppnl ∧ s.prag = st.prag) :
       StepSpecG st (.done (.ok s))
   | some (s : St) (h1 : s.rb = true)
       (h2 : flatG g st.macros st.ctx = g (liveNames s.ctx) s.rt :: flatG g s.macros s.ctx)
       (h3 : CtxWF s.macros s.ctx) (h4 : s.raw = st.raw)
       (h5 : s.macros = (popDone st.ctx st.macros st.depth).2.1 ∧ s.depth = (popDone st.ctx st.macros st.depth).2.2 ∧
-        liveNames s.ctx = liveNames (popDone st.ctx st.macros st.depth).1 ∧ s.ppnl = st.ppnl) :
+        liveNames s.ctx = liveNames (popDone st.ctx st.macros st.depth).1 ∧ s.ppnl = st.ppnl ∧ s.prag = st.prag) :
       StepSpecG st (.done (.ok s))
   | again (s : St) (h1 : flatG g st.macros st.ctx = flatG g s.macros s.ctx) (h2 : ctxSize s.ctx < ctxSize st.ctx)
       (h3 : CtxWF s.macros s.ctx) (h4 : s.raw = st.raw)
       (h5 : s.macros = (popDone st.ctx st.macros st.depth).2.1 ∧ s.depth = (popDone st.ctx st.macros st.depth).2.2 ∧
-        liveNames s.ctx = liveNames (popDone st.ctx st.macros st.depth).1 ∧ s.ppnl = st.ppnl) :
+        liveNames s.ctx = liveNames (popDone st.ctx st.macros st.depth).1 ∧ s.ppnl = st.ppnl ∧ s.prag = st.prag) :
       StepSpecG st (.again s)
 
 theorem ctxnextStep_specG (st : St) (hW : CtxWF st.macros st.ctx) : StepSpecG g st (ctxnextStep st) := by
@@ -68,7 +68,7 @@ theorem ctxnextStep_specG (st : St) (hW : CtxWF st.macros st.ctx) : StepSpecG g 
   simp only
   cases hctx : (popDone st.ctx st.macros st.depth).1 with
   | nil =>
-    refine .none _ rfl rfl ?_ rfl ⟨rfl, rfl, by rw [hctx], rfl⟩
+    refine .none _ rfl rfl ?_ rfl ⟨rfl, rfl, by rw [hctx], rfl, rfl⟩
     rw [← hpf.1, hctx]; rfl
   | cons f rest =>
     have hfne := hne f rest hctx
@@ -97,7 +97,7 @@ theorem ctxnextStep_specG (st : St) (hW : CtxWF st.macros st.ctx) : StepSpecG g 
         · exact hWrest g hg
       cases hm : f.mac.bind (macroget (popDone st.ctx st.macros st.depth).2.1) with
       | none =>
-        refine .some _ rfl ?_ (hWmore more (by intro m hh; rw [hm] at hh; cases hh)) rfl ⟨rfl, rfl, by rw [hctx, hlv], rfl⟩
+        refine .some _ rfl ?_ (hWmore more (by intro m hh; rw [hm] at hh; cases hh)) rfl ⟨rfl, rfl, by rw [hctx, hlv], rfl, rfl⟩
         rw [hflat]
         simp only [flatG, hlv, frameToks, hm, htoks, List.map_cons, List.cons_append]
       | some m =>
@@ -121,7 +121,7 @@ theorem ctxnextStep_specG (st : St) (hW : CtxWF st.macros st.ctx) : StepSpecG g 
               | none => rw [hp] at hHF; cases hHF.1
               | some i =>
                 simp only
-                refine .some _ rfl ?_ ?_ rfl ⟨rfl, rfl, by rw [hctx, hlvn, hlv], rfl⟩
+                refine .some _ rfl ?_ ?_ rfl ⟨rfl, rfl, by rw [hctx, hlvn, hlv], rfl, rfl⟩
                 · rw [hflat, hft, substBody_hash m t t2 more2 i hh hp]
                   simp only [flatG, hlvn, hlv, frameToks_none, hft', List.map_nil, List.map_cons, List.nil_append, List.cons_append]
                 · intro g hg
@@ -135,7 +135,7 @@ theorem ctxnextStep_specG (st : St) (hW : CtxWF st.macros st.ctx) : StepSpecG g 
               cases hp : macroparam m.params t with
               | none =>
                 simp only
-                refine .some _ rfl ?_ (hWmore more (fun m' hm' _ => by rw [hm] at hm'; cases hm'; exact hHFm)) rfl ⟨rfl, rfl, by rw [hctx, hlv], rfl⟩
+                refine .some _ rfl ?_ (hWmore more (fun m' hm' _ => by rw [hm] at hm'; cases hm'; exact hHFm)) rfl ⟨rfl, rfl, by rw [hctx, hlv], rfl, rfl⟩
                 rw [hflat, hft, substBody_plain m t more hh (fun _ => hp)]
                 simp only [flatG, hlv, hft', List.map_cons, List.cons_append]
               | some i =>
@@ -150,11 +150,11 @@ theorem ctxnextStep_specG (st : St) (hW : CtxWF st.macros st.ctx) : StepSpecG g 
                     rw [hsize, ctxSize_cons, htoks]; simp
                   have hwf := hWmore more (fun m' hm' _ => by rw [hm] at hm'; cases hm'; exact hHFm)
                   split
-                  · exact .again _ hfl hsz hwf rfl ⟨rfl, rfl, by rw [hctx]; exact hlv more, rfl⟩
-                  · exact .again _ hfl hsz hwf rfl ⟨rfl, rfl, by rw [hctx, hlv], rfl⟩
+                  · exact .again _ hfl hsz hwf rfl ⟨rfl, rfl, by rw [hctx]; exact hlv more, rfl, rfl⟩
+                  · exact .again _ hfl hsz hwf rfl ⟨rfl, rfl, by rw [hctx, hlv], rfl, rfl⟩
                 | cons a as =>
                   simp only
-                  refine .some _ rfl ?_ ?_ rfl ⟨rfl, rfl, by rw [hctx, hlvn, hlv], rfl⟩
+                  refine .some _ rfl ?_ ?_ rfl ⟨rfl, rfl, by rw [hctx, hlvn, hlv], rfl, rfl⟩
                   · rw [hflat, hft, substBody_param m t more i hk hp, ha]
                     simp only [respace, flatG, hlvn, hlv, frameToks_none, hft', List.map_cons, List.map_append, List.cons_append, List.append_assoc]
                   · intro g hg
@@ -162,12 +162,12 @@ theorem ctxnextStep_specG (st : St) (hW : CtxWF st.macros st.ctx) : StepSpecG g 
                     · intro m' hm'; cases hm'
                     · exact hWmore more (fun m' hm' _ => by rw [hm] at hm'; cases hm'; exact hHFm) g hg
             · simp only [hk, ↓reduceIte]
-              refine .some _ rfl ?_ (hWmore more (fun m' hm' _ => by rw [hm] at hm'; cases hm'; exact hHFm)) rfl ⟨rfl, rfl, by rw [hctx, hlv], rfl⟩
+              refine .some _ rfl ?_ (hWmore more (fun m' hm' _ => by rw [hm] at hm'; cases hm'; exact hHFm)) rfl ⟨rfl, rfl, by rw [hctx, hlv], rfl, rfl⟩
               rw [hflat, hft, substBody_plain m t more hh (fun h => absurd h hk)]
               simp only [flatG, hlv, hft', List.map_cons, List.cons_append]
         · have hfun' : m.func = false := by cases h : m.func <;> simp_all
           simp only [hfun', Bool.false_eq_true, not_false_eq_true, ↓reduceIte]
-          refine .some _ rfl ?_ (hWmore more (fun m' hm' hf' => by rw [hm] at hm'; cases hm'; rw [hfun'] at hf'; cases hf')) rfl ⟨rfl, rfl, by rw [hctx, hlv], rfl⟩
+          refine .some _ rfl ?_ (hWmore more (fun m' hm' hf' => by rw [hm] at hm'; cases hm'; rw [hfun'] at hf'; cases hf')) rfl ⟨rfl, rfl, by rw [hctx, hlv], rfl, rfl⟩
           rw [hflat]
           simp only [flatG, hlv, frameToks, hm, hfun', Bool.false_eq_true, ↓reduceIte, htoks, List.map_cons, List.cons_append]
 
@@ -215,7 +215,7 @@ variable {β : Type} (g : List Name → Tok → β)
 
 /-- **`ctxnext` against the annotated stack**, with what it preserves -/
 theorem ctxnext_flatG : ∀ (k : Nat) (st : St), ctxSize st.ctx ≤ k → CtxWF st.macros st.ctx →
-    ∃ s, exec (k + 1) .ctxnext st = .ok s ∧ s.raw = st.raw ∧ CtxWF s.macros s.ctx ∧ s.ppnl = st.ppnl ∧
+    ∃ s, exec (k + 1) .ctxnext st = .ok s ∧ s.raw = st.raw ∧ CtxWF s.macros s.ctx ∧ (s.ppnl = st.ppnl ∧ s.prag = st.prag) ∧
       s.macros.map strip = st.macros.map strip ∧
       (InvC st.ctx st.macros st.depth → InvC s.ctx s.macros s.depth) ∧
       ((s.rb = false ∧ s.ctx = [] ∧ flatG g st.macros st.ctx = []) ∨
@@ -232,10 +232,10 @@ theorem ctxnext_flatG : ∀ (k : Nat) (st : St), ctxSize st.ctx ≤ k → CtxWF 
     generalize ctxnextStep st = cs at hs
     cases hs with
     | none s h1 h2 h3 h4 h5 =>
-      exact ⟨s, rfl, h4, (by rw [h2]; intro f hf; cases hf), h5.2.2.2, (by rw [h5.1]; exact hps),
+      exact ⟨s, rfl, h4, (by rw [h2]; intro f hf; cases hf), ⟨h5.2.2.2.1, h5.2.2.2.2⟩, (by rw [h5.1]; exact hps),
         (fun hi => by rw [h5.1, h5.2.1]; exact invC_of_liveNames (hpi hi) h5.2.2.1), .inl ⟨h1, h2, h3⟩⟩
     | some s h1 h2 h3 h4 h5 =>
-      exact ⟨s, rfl, h4, h3, h5.2.2.2, (by rw [h5.1]; exact hps),
+      exact ⟨s, rfl, h4, h3, ⟨h5.2.2.2.1, h5.2.2.2.2⟩, (by rw [h5.1]; exact hps),
         (fun hi => by rw [h5.1, h5.2.1]; exact invC_of_liveNames (hpi hi) h5.2.2.1), .inr ⟨h1, h2⟩⟩
     | again s h1 h2 h3 h4 h5 => omega
   | succ k ih =>
@@ -248,14 +248,14 @@ theorem ctxnext_flatG : ∀ (k : Nat) (st : St), ctxSize st.ctx ≤ k → CtxWF 
     generalize ctxnextStep st = cs at hs
     cases hs with
     | none s h1 h2 h3 h4 h5 =>
-      exact ⟨s, rfl, h4, (by rw [h2]; intro f hf; cases hf), h5.2.2.2, (by rw [h5.1]; exact hps),
+      exact ⟨s, rfl, h4, (by rw [h2]; intro f hf; cases hf), ⟨h5.2.2.2.1, h5.2.2.2.2⟩, (by rw [h5.1]; exact hps),
         (fun hi => by rw [h5.1, h5.2.1]; exact invC_of_liveNames (hpi hi) h5.2.2.1), .inl ⟨h1, h2, h3⟩⟩
     | some s h1 h2 h3 h4 h5 =>
-      exact ⟨s, rfl, h4, h3, h5.2.2.2, (by rw [h5.1]; exact hps),
+      exact ⟨s, rfl, h4, h3, ⟨h5.2.2.2.1, h5.2.2.2.2⟩, (by rw [h5.1]; exact hps),
         (fun hi => by rw [h5.1, h5.2.1]; exact invC_of_liveNames (hpi hi) h5.2.2.1), .inr ⟨h1, h2⟩⟩
     | again s h1 h2 h3 h4 h5 =>
       obtain ⟨s', he, hr, hw, hp, hst, hinv, hc⟩ := ih s (by omega) h3
-      refine ⟨s', he, by rw [hr, h4], hw, by rw [hp, h5.2.2.2], by rw [hst, h5.1]; exact hps, ?_, ?_⟩
+      refine ⟨s', he, by rw [hr, h4], hw, ⟨by rw [hp.1, h5.2.2.2.1], by rw [hp.2, h5.2.2.2.2]⟩, by rw [hst, h5.1]; exact hps, ?_, ?_⟩
       · intro hi
         apply hinv
         rw [h5.1, h5.2.1]; exact invC_of_liveNames (hpi hi) h5.2.2.1
